@@ -194,6 +194,49 @@ pub fn run(ctx: &mut Ctx) {
             }
         }
 
+        // the same envelope with (a) the 'hasRecipient' PREDICATE obscured in every assertion (same digest) and
+        // (b) every sealed-message object carrying an assertion of its own: every listed recipient still opens it,
+        // an unlisted key still does not
+        {
+            let pred = Envelope::new(known_values::HAS_RECIPIENT);
+            let act = *rng.pick(&gen::ACTS);
+            let k9 = fresh_key(&mut rng);
+            let pred_obscured = y.elide_removing_set_with_action(&gen::digest_set(&[d32(&pred)]), &gen::action(act, &k9));
+            let mut decorated = y.clone();
+            for a in y.assertions_with_predicate(known_values::HAS_RECIPIENT) {
+                if let (Some(p), Some(o)) = (a.as_predicate(), a.as_object()) {
+                    if !o.is_obscured() && a.assertions().is_empty() {
+                        decorated = decorated.remove_assertion(a.clone()).add_assertion(p, o.add_assertion(known_values::NOTE, "for you"));
+                    }
+                }
+            }
+            // (when the known value 'hasRecipient' also occurs in the original envelope itself - e.g. as its subject -
+            // obscuring that digest would hit the content too: not the scenario meant here)
+            let clash = tree_of(&e).all_digests().contains(&d32(&pred));
+            for (label, z) in [("predicate-obscured", pred_obscured), ("object-decorated", decorated)] {
+                if clash && label == "predicate-obscured" {
+                    continue;
+                }
+                ctx.eval();
+                ctx.count("reshaped_recipient_assertions");
+                for k in &listed {
+                    match trap::guard(|| z.decrypt_subject_to_recipient(&k.sk)) {
+                        Ok(Ok(d)) => {
+                            if d32(&d.subject()) != d32(&e.subject()) {
+                                ctx.violation(&format!("reshaped/{}/not-original", label), "decrypted subject is not the original subject", jhex(&z));
+                            }
+                        }
+                        Ok(Err(err)) => ctx.violation(&format!("reshaped/{}/cannot-decrypt", label), &format!("listed recipient ({}) got an error: {}", k.scheme, err), jhex(&z)),
+                        Err(p) => ctx.violation(&format!("reshaped/{}/panic/{}", label, p.signature()), &format!("{:?}", p), jhex(&z)),
+                    }
+                }
+                if let Some(u) = unlisted.first() {
+                    if let Ok(Ok(_)) = trap::guard(|| z.decrypt_subject_to_recipient(&u.sk)) {
+                        ctx.violation(&format!("reshaped/{}/unlisted-decrypted", label), "an unlisted key opened the envelope", jhex(&z));
+                    }
+                }
+            }
+        }
         // the *_opt entry points (fixed nonce): same access rules
         {
             ctx.eval();
